@@ -16,6 +16,9 @@
 #ifndef ROMEA_CORE_COMMON__CONTAINERS__GRID__WRAPPABLEGRID_HPP_
 #define ROMEA_CORE_COMMON__CONTAINERS__GRID__WRAPPABLEGRID_HPP_
 
+#include <algorithm>
+#include <cstdlib>
+
 #include "romea_core_common/containers/grid/Grid.hpp"
 
 namespace romea
@@ -124,146 +127,39 @@ void WrappableGrid<T, DIM>::translate(
   const CellIndexesOffset & indexOffset,
   const T & emptyValue)
 {
-  // TODO(JEAN) utiliser constexpr if
-  if (DIM == 2) {
+  for (size_t axis = 0; axis < DIM; ++axis) {
+    const long long numberOfCells = static_cast<long long>(this->numberOfCellsAlongAxes_[axis]);
+    const long long offset = indexOffset[axis];
+    if (offset == 0) {
+      continue;
+    }
+
+    // slide the window: cell i now designates the former cell i + offset,
+    // offsets of successive translations accumulate
+    const long long wrappedOffset = ((offset % numberOfCells) + numberOfCells) % numberOfCells;
+    indexOffsetsAlongAxes_[axis] =
+      (indexOffsetsAlongAxes_[axis] + static_cast<size_t>(wrappedOffset)) %
+      this->numberOfCellsAlongAxes_[axis];
+
+    // blank the slabs that have just entered the window
+    const size_t numberOfEnteringSlabs =
+      static_cast<size_t>(std::min(std::abs(offset), numberOfCells));
+    const size_t firstEnteringSlab =
+      offset > 0 ? this->numberOfCellsAlongAxes_[axis] - numberOfEnteringSlabs : 0;
+
+    CellIndexes extents = this->numberOfCellsAlongAxes_;
+    extents[axis] = numberOfEnteringSlabs;
+    const size_t numberOfEnteringCells = extents.prod();
+
     CellIndexes cellIndexes;
-    size_t & xIndex = cellIndexes[0];
-    size_t & yIndex = cellIndexes[1];
-
-    const int & indexOffsetAlongXAxis = indexOffset[0];
-    const int & indexOffsetAlongYAxis = indexOffset[1];
-
-    const size_t & numberOfCellsAlongXAxis = this->numberOfCellsAlongAxes_[0];
-    const size_t & numberOfCellsAlongYAxis = this->numberOfCellsAlongAxes_[1];
-
-    const size_t & numberOfCellsAlongXAxisMinusOne = numberOfCellsAlongAxesMinusOne_[0];
-    const size_t & numberOfCellsAlongYAxisMinusOne = numberOfCellsAlongAxesMinusOne_[1];
-
-
-    // translation along X
-    if (indexOffsetAlongXAxis) {
-      for (yIndex = 0; yIndex < numberOfCellsAlongYAxis; yIndex++) {
-        xIndex = indexOffsetsAlongAxes_[0];
-        for (int xOffset = 0; xOffset < indexOffsetAlongXAxis; xOffset++) {
-          this->buffer_[computeCellLinearIndex_(cellIndexes)] = emptyValue;
-          xIndex = (xIndex + 1) % numberOfCellsAlongXAxis;
-        }
-
-        xIndex = indexOffsetsAlongAxes_[0];
-        for (int xOffset = 0; xOffset > indexOffsetAlongXAxis; xOffset--) {
-          xIndex = (xIndex + numberOfCellsAlongXAxisMinusOne) % numberOfCellsAlongXAxis;
-          this->buffer_[computeCellLinearIndex_(cellIndexes)] = emptyValue;
-        }
+    for (size_t n = 0; n < numberOfEnteringCells; ++n) {
+      size_t remainder = n;
+      for (size_t dim = 0; dim < DIM; ++dim) {
+        cellIndexes[dim] = remainder % extents[dim];
+        remainder /= extents[dim];
       }
-      indexOffsetsAlongAxes_[0] = (numberOfCellsAlongXAxis + indexOffsetAlongXAxis) %
-        numberOfCellsAlongXAxis;
-    }
-
-    // translation along Y
-    if (indexOffsetAlongYAxis) {
-      yIndex = indexOffsetsAlongAxes_[1];
-      for (int yOffset = 0; yOffset < indexOffsetAlongYAxis; yOffset++) {
-        for (xIndex = 0; xIndex < numberOfCellsAlongXAxis; xIndex++) {
-          this->buffer_[computeCellLinearIndex_(cellIndexes)] = emptyValue;
-        }
-        yIndex = (yIndex + 1) % numberOfCellsAlongYAxis;
-      }
-
-      for (int yOffset = 0; yOffset > indexOffsetAlongYAxis; yOffset--) {
-        yIndex = (yIndex + numberOfCellsAlongYAxisMinusOne) % numberOfCellsAlongYAxis;
-        for (xIndex = 0; xIndex < numberOfCellsAlongXAxis; xIndex++) {
-          this->buffer_[computeCellLinearIndex_(cellIndexes)] = emptyValue;
-        }
-      }
-
-      indexOffsetsAlongAxes_[1] = (numberOfCellsAlongYAxis + indexOffsetAlongYAxis) %
-        numberOfCellsAlongYAxis;
-    }
-  } else {
-    CellIndexes cellIndexes;
-    size_t & xIndex = cellIndexes[0];
-    size_t & yIndex = cellIndexes[1];
-    size_t & zIndex = cellIndexes[2];
-
-    const int & indexOffsetAlongXAxis = indexOffset[0];
-    const int & indexOffsetAlongYAxis = indexOffset[1];
-    const int & indexOffsetAlongZAxis = indexOffset[2];
-
-    const size_t & numberOfCellsAlongXAxis = this->numberOfCellsAlongAxes_[0];
-    const size_t & numberOfCellsAlongYAxis = this->numberOfCellsAlongAxes_[1];
-    const size_t & numberOfCellsAlongZAxis = this->numberOfCellsAlongAxes_[2];
-
-    const size_t & numberOfCellsAlongXAxisMinusOne = numberOfCellsAlongAxesMinusOne_[0];
-    const size_t & numberOfCellsAlongYAxisMinusOne = numberOfCellsAlongAxesMinusOne_[1];
-    const size_t & numberOfCellsAlongZAxisMinusOne = numberOfCellsAlongAxesMinusOne_[2];
-
-    // translation along X
-    if (indexOffsetAlongXAxis) {
-      for (zIndex = 0; zIndex < numberOfCellsAlongZAxis; zIndex++) {
-        for (yIndex = 0; yIndex < numberOfCellsAlongYAxis; yIndex++) {
-          xIndex = indexOffsetsAlongAxes_[0];
-          for (int xOffset = 0; xOffset < indexOffsetAlongXAxis; xOffset++) {
-            this->buffer_[computeCellLinearIndex_(cellIndexes)] = emptyValue;
-            xIndex = (xIndex + 1) % numberOfCellsAlongXAxis;
-          }
-
-          for (int xOffset = 0; xOffset > indexOffsetAlongXAxis; xOffset--) {
-            xIndex = (xIndex + numberOfCellsAlongXAxisMinusOne) % numberOfCellsAlongXAxis;
-            this->buffer_[computeCellLinearIndex_(cellIndexes)] = emptyValue;
-          }
-        }
-      }
-      indexOffsetsAlongAxes_[0] = (numberOfCellsAlongXAxis + indexOffsetAlongXAxis) %
-        numberOfCellsAlongXAxis;
-    }
-
-    // translation along Y
-    if (indexOffsetAlongYAxis) {
-      for (zIndex = 0; zIndex < numberOfCellsAlongZAxis; zIndex++) {
-        yIndex = indexOffsetsAlongAxes_[1];
-        for (int yOffset = 0; yOffset < indexOffsetAlongYAxis; yOffset++) {
-          for (xIndex = 0; xIndex < numberOfCellsAlongXAxis; xIndex++) {
-            this->buffer_[computeCellLinearIndex_(cellIndexes)] = emptyValue;
-          }
-          yIndex = (yIndex + 1) % numberOfCellsAlongYAxis;
-        }
-
-
-        for (int yOffset = 0; yOffset > indexOffsetAlongYAxis; yOffset--) {
-          yIndex = (yIndex + numberOfCellsAlongYAxisMinusOne) % numberOfCellsAlongYAxis;
-          for (xIndex = 0; xIndex < numberOfCellsAlongXAxis; xIndex++) {
-            this->buffer_[computeCellLinearIndex_(cellIndexes)] = emptyValue;
-          }
-        }
-      }
-      indexOffsetsAlongAxes_[1] = (numberOfCellsAlongYAxis + indexOffsetAlongYAxis) %
-        numberOfCellsAlongYAxis;
-    }
-
-    // translation along Z
-    if (indexOffsetAlongZAxis) {
-      zIndex = indexOffsetsAlongAxes_[2];
-
-      for (int zOffset = 0; zOffset < indexOffsetAlongZAxis; zOffset++) {
-        for (yIndex = 0; yIndex < numberOfCellsAlongYAxis; yIndex++) {
-          for (xIndex = 0; xIndex < numberOfCellsAlongXAxis; xIndex++) {
-            this->buffer_[computeCellLinearIndex_(cellIndexes)] = emptyValue;
-          }
-        }
-        zIndex = (zIndex + 1) % numberOfCellsAlongZAxis;
-      }
-
-      for (int zOffset = 0; zOffset < indexOffsetAlongZAxis; zOffset++) {
-        zIndex = (zIndex + numberOfCellsAlongZAxisMinusOne) % numberOfCellsAlongZAxis;
-
-        for (yIndex = 0; yIndex < numberOfCellsAlongYAxis; yIndex++) {
-          for (xIndex = 0; xIndex < numberOfCellsAlongXAxis; xIndex++) {
-            this->buffer_[computeCellLinearIndex_(cellIndexes)] = emptyValue;
-          }
-        }
-      }
-      indexOffsetsAlongAxes_[2] = (numberOfCellsAlongZAxis + indexOffsetAlongZAxis) %
-        numberOfCellsAlongZAxis;
+      cellIndexes[axis] += firstEnteringSlab;
+      this->buffer_[computeCellLinearIndex_(cellIndexes)] = emptyValue;
     }
   }
 }
